@@ -193,7 +193,30 @@ func c07Schedule(c *mc.Ctx, bound int, large bool) {
 		si = c.Pick(len(starts))
 		ci = c.Pick(len(configs))
 	}
-	st, cfg := starts[si], configs[ci]
+	cfg := configs[ci]
+	if large {
+		// start values in the order of how close the wrap falls to the harness's last
+		// NextSequenceNumber call: under a change that breaks the property the budget may not
+		// reach the end of the list
+		nN := 0
+		for _, l := range cfg {
+			nN += strings.Count(l, "N")
+		}
+		key := func(s c07Start) int {
+			if s.random || s.v == 0 {
+				return 1 << 20
+			}
+			d := (65536 - int(s.v)) - nN
+			if d < 0 {
+				d = -d
+			}
+			return d
+		}
+		ordered := append([]c07Start{}, starts...)
+		sort.SliceStable(ordered, func(a, b int) bool { return key(ordered[a]) < key(ordered[b]) })
+		starts = ordered
+	}
+	st := starts[si]
 	c.Barrier()
 	var visited map[uint64]struct{}
 	if large || bound < 0 {
